@@ -177,4 +177,23 @@ Section Split.
   Definition split_slices {A} (l : list A) (nbSplits nbPoints : nat) : list (list A) :=
     map (fun i => firstn nbPoints (skipn (i * nbPoints) l)) (seq 0 (nbSplits - 1))
     ++ [skipn ((nbSplits - 1) * nbPoints) l].
+
+  (* MultiExp after the choice of (c, nbSplits, nbPoints): nbSplits-1 goroutines run msmInner
+     on slices of nbPoints (points, packed scalars), the caller on the rest; the partial
+     results are added to the caller's in the order in which the goroutines finish *)
+  Definition multi_exp (c : Z) (nbSplits nbPoints : nat) (order : list nat)
+             (points : list G) (scalars : list Z) (split_first : bool) : G :=
+    let packed := fst (partition_scalars c scalars) in
+    let parts := map (fun pk => msm_inner go c (fst pk) (snd pk) split_first)
+                     (combine (split_slices points nbSplits nbPoints) (split_slices packed nbSplits nbPoints)) in
+    fold_left (fun acc i => gadd go acc (nth i parts (g0 go))) order (last parts (g0 go)).
+
+  (* the whole of MultiExp: window / split choice, then the above *)
+  Definition multi_exp_top (fuel : nat) (nbTasks : Z) (order : nat -> list nat)
+             (points : list G) (scalars : list Z) (split_first : bool) : option G :=
+    match split_loop fuel best_c nbTasks (Z.of_nat (length points)) 1 with
+    | None => None
+    | Some (c, nbSplits, nbPoints) =>
+        Some (multi_exp c (Z.to_nat nbSplits) (Z.to_nat nbPoints) (order (Z.to_nat nbSplits)) points scalars split_first)
+    end.
 End Split.
